@@ -213,6 +213,7 @@ type State struct {
 	frameCheckRange func(ex *Exec, st *State, in ssa.Instruction, dst *SliceV, n *Term)
 	wantPrune       bool
 	callLog         map[string][]TV // results of calls made on this path, by short callee name
+	opaqueMaps      map[int64]bool  // maps whose key set is not completely known
 	hashSeq         map[int64][]Seg // ghost message of hash objects (by region id)
 	regionSeq       map[int64][]Seg // content of locally built byte regions as segments
 }
